@@ -21,6 +21,7 @@ import (
 	"reflect"
 	"sort"
 	"strings"
+	"sync"
 	"sync/atomic"
 	"time"
 
@@ -68,9 +69,18 @@ func (watcherExt) Shutdown(context.Context) error              { return nil }
 func (watcherExt) NotifyConfig(_ context.Context, conf *confmap.Conf) error {
 	m := conf.ToStringMap()
 	lastNotified.Store(&m)
+	notifiedMu.Lock()
+	notifiedAll = append(notifiedAll, m)
+	notifiedMu.Unlock()
 	notifyCount.Add(1)
 	return nil
 }
+
+// every effective configuration handed to the watcher during the current collector run
+var (
+	notifiedMu  sync.Mutex
+	notifiedAll []map[string]any
+)
 
 type watcherCfg struct{}
 
@@ -352,6 +362,14 @@ func run(c *driver.Ctx) {
 		runStrictVariant(c, i, c.CaseRand(i))
 	}
 	off += nStrict
+	nReload := int64(c.N(40, 1200))
+	for k := int64(0); k < nReload; k++ {
+		i := off + nValid + k
+		if !c.Want(i) {
+			continue
+		}
+		runReload(c, i, c.CaseRand(i))
+	}
 	for k := int64(0); k < nValid; k++ {
 		i := off + k
 		if !c.Want(i) {
@@ -367,7 +385,7 @@ func main() {
 		Level: "exploration",
 		Rule: "faithfulness: a case is (component, set of written keys with generated values); the key universe and the field types come from reflection over the factories' default configs (otlp receiver; otlp, otlphttp, debug, nop exporters; " +
 			"batch, memory_limiter processors; forward connector; zpages, memory_limiter extensions; service section); distinct = (component, written key set). strictness: (variant kind, insertion path / mutated reference); the unknown-key variant is enumerated for every struct node of every component; dangling references use ids defined nowhere and ids defined (and validly used) in another section, all ordered section pairs, same and other pipeline, service::extensions. " +
-			"validation: (perturbed loaded configuration); non-trivial when the independent walker obtained >= 1 Validate() error. Every case that reached the loader is non-trivial",
+			"reload: (sequence A->B, A->B->A or A->B->C of valid configurations loaded by ONE running otelcol.Collector through a provider that signals the change; B is A with a component, a pipeline, map entries and settings removed plus new keys); every effective configuration handed to the ConfigWatcher must equal, key for key, what a fresh collector reports for that configuration alone. validation: (perturbed loaded configuration); non-trivial when the independent walker obtained >= 1 Validate() error. Every case that reached the loader is non-trivial",
 		Assumptions: []string{
 			"values are produced from Go values of the field's type (Duration.String, the text form of enum-like text-unmarshaler types from a table, URL paths with a leading '/', endpoints, TLS versions); keys whose type the generator cannot produce are counted as uncovered, never guessed",
 			"a load error of a generated configuration is not a finding (counted per error class); sections the user did not mention are not judged; a deprecated alias (sending_queue::blocking) may set its unwritten target",
